@@ -134,6 +134,26 @@ def mc_name_containment_cases():
     return out
 
 
+def many_cases():
+    """twelve ports, eleven events per direction and eleven parameters, declared in an order that is neither numeric nor
+    alphabetical: anything that orders by string, assumes single digits or stops early shows"""
+    order = [10, 2, 1, 11, 3, 9, 4, 12, 5, 8, 6, 7]
+    ev_in = [[f'e{k}', 'in', ['void'] if k % 3 else ['Result'], [[f'a{j}', ['Int'], 'in'] for j in ([3, 1, 2] if k == 2 else [])]] for k in order[:11]]
+    ev_in[0][3] = [[f'a{j}', ['Int'] if j % 2 else ['Str'], 'in' if j % 3 else 'inout'] for j in order[:11]]
+    ev_out = [[f'o{k}', 'out', ['void'], [[f'b{j}', ['Int'], 'in'] for j in ([2, 10, 1] if k == 10 else [])]] for k in order[:11]]
+    itf = ['itf', ['IMany'], [['enum', ['Result'], ['R10', 'R2', 'R1']]], ev_in + ev_out]
+    ports = [[f'p{k}', ['IMany'], 'provides' if n < 6 else 'requires', False] for n, k in enumerate(order)]
+    file = [['extern', ['Int'], 'int'], ['extern', ['Str'], 'std::string'], ['ns', ['My'], [itf, ['comp', ['Many'], ports]]]]
+    req = [p[0] for p in ports if p[2] == 'requires']
+    out = []
+    for pc in ({'p': [['w', 'none'], ['w', 'all']], 'r': [['s', req[::2]], ['s', req[1::2]]]},
+               {'p': [['w', 'all'], ['w', 'none']], 'r': [['w', 'none'], ['w', 'all']]}):
+        out.append({'file': file, 'cfg': {'file': 'Many.dzn', 'enc': ['My', 'Many'], 'fac': 'create', 'ports': pc}})
+    mc = {'p': [['w', 'none'], ['w', 'all']], 'r': [['w', 'none'], ['w', 'all']], 'mc': ['p11', 'e9', ['R1'], 'e10']}
+    out.append({'file': file, 'cfg': {'file': 'Many.dzn', 'enc': ['My', 'Many'], 'fac': 'import', 'ports': mc}})
+    return out
+
+
 def tie_and_plans(cases):
     """(impl outcomes, model outcomes, plans); a case is 'tied' when the implementation's files equal the model's byte for byte.
     Every case is preceded, in the same interpreter, by a build of its sibling."""
